@@ -68,7 +68,7 @@ impl MemTable {
     ) -> Result<MemTableCursor, SError> {
         let iter = self.skiplist.iter();
         let wrapper = SkipListIteratorWrapper { iter };
-        let cursor = PruningCursor::new(wrapper, timestamp)?;
+        let cursor = PruningCursor::with_tombstones(wrapper, timestamp)?;
         let cursor = BoundsCursor::new(cursor, start_bound, end_bound)?;
         Ok(MemTableCursor { cursor })
     }
